@@ -428,10 +428,10 @@ func jobs(quick bool) []job {
 		add("S1", 4, 0, 1, 2, 3)
 		add("S8", 4, 0, 1, 2)
 		add("S9", 5, 0, 1, 2)
-		for _, h := range []string{"S2", "S4", "S3a", "S3b", "S3c", "S6"} {
+		for _, h := range []string{"S2", "S4", "S10", "S3a", "S3b", "S3c", "S6"} {
 			add(h, 8, 0)
 		}
-		for _, h := range []string{"S2", "S4", "S3b", "S3a", "S3c"} {
+		for _, h := range []string{"S2", "S4", "S10", "S3b", "S3a", "S3c"} {
 			add(h, 10, 1)
 		}
 		for _, h := range []string{"S2", "S4"} {
@@ -444,14 +444,14 @@ func jobs(quick bool) []job {
 	add("S1", 10, 0, 1, 2, 3)
 	add("S8", 10, 0, 1, 2, 3)
 	add("S9", 20, 0, 1, 2, 3)
-	for _, h := range []string{"S2", "S4", "S3a", "S3b", "S3c", "S6", "S5", "S3"} {
+	for _, h := range []string{"S2", "S4", "S10", "S3a", "S3b", "S3c", "S6", "S5", "S3"} {
 		add(h, 40, 0)
 	}
 	add("S7", 60, 0)
-	for _, h := range []string{"S2", "S4", "S3b", "S3a", "S3c", "S6", "S5", "S7"} {
+	for _, h := range []string{"S2", "S4", "S10", "S3b", "S3a", "S3c", "S6", "S5", "S7"} {
 		add(h, 60, 1)
 	}
-	for _, h := range []string{"S2", "S4", "S3b", "S3a", "S3c", "S6"} {
+	for _, h := range []string{"S2", "S4", "S10", "S3b", "S3a", "S3c", "S6"} {
 		add(h, 75, 2)
 	}
 	for _, h := range []string{"S2", "S4"} {
